@@ -20,6 +20,9 @@ def _sample(lst, n, seed):
 # ------------------------------------------------------------------ C10: parameter expansion
 def c10(tier, seed):
     _c10_extra = [
+        {'script': 'PRICE=3\necho "$1 costs $PRICE"\necho $1-${PRICE}-$?\n', 'args': ['100$'], 'files': {'st': ST}, 'expect_stdout': '100$ costs 3\n100$-3-0\n', 'area': 'expand_env:reference-next-to-a-positional-parameter-whose-value-has-a-dollar'},
+        {'line': 'MSG=\'he said "ok"\'; COPY="$MSG"; ./pargs "$COPY"; export C2="${MSG}"; printenv C2; C3="$MSG" printenv C3; Q=\'""x""\'; R="$Q"; ./pargs "$R"', 'files': {'pargs': PARGS},
+         'expect_stdout': '[he said "ok"]\nhe said "ok"\nhe said "ok"\n[""x""]\n', 'area': 'expand_env:value-that-ends-in-a-quote-character'},
         {'script': 'A=$$\nfunction f() {\n    ./eq $$ $A && ./st same 0\n}\nf\nf | cat\n./st x 0 | f\n', 'files': {'eq': EQ, 'st': ST}, 'expect_stdout_prefix': 'same\nsame\n', 'area': 'expand_env:pid-inside-a-function-used-as-a-pipeline-stage'},
         {'script': 'if ./st t 3\n    ./st no 0\nelse\n    ./st "else:$?" 0\nfi\nif ./st u 4\n    ./st no 0\nelse if ./eq $? 4\n    ./st elif-saw-4 0\nfi\nwhile ./st w 5\n    ./st no 0\ndone\n./st "after:$?" 0\n', 'files': {'eq': EQ, 'st': ST},
          'expect_stdout': 't\nelse:3\nu\nelif-saw-4\nw\nafter:5\n', 'area': 'expand_env:status-of-a-failed-test-in-the-else-branch'},
@@ -165,6 +168,11 @@ def c11(tier, seed):
         out.append({'line': 'ulimit -n %d; A=$(echo a | cat); ulimit -n 64; B=$(echo b); echo "[$B]"' % n, 'timeout': 8, 'expect_stdout': '[b]\n', 'area': 'substitution:descriptor-exhaustion:later-substitution-works'})
     for n in (7, 8):
         out.append({'line': 'ulimit -n %d; A=$(echo a | cat); B=$(echo b); C=$(echo c); ulimit -n 64; echo "[$B$C]"' % n, 'timeout': 8, 'expect_stdout': '[bc]\n', 'area': 'substitution:descriptor-exhaustion:later-substitution-works'})
+    # a whole-word backquote command is run as written: the values of its references are data of the inner line
+    out.append({'line': 'V="a|b"; ./pargs `echo $V`; P=\'$HOME\'; ./pargs `echo $P`; Q="it\'s"; ./pargs `echo $Q`', 'files': {'pargs': PARGS}, 'expect_stdout': _argv(['a|b']) + _argv(['$HOME']) + _argv(["it's"]), 'area': 'substitution:backquote:values-inside-are-data'})
+    # an inner command that plans to no command at all: a diagnostic and an empty replacement, the line goes on
+    out.append({'line': './pargs x$(echo a | )y; echo after; ./pargs `echo a |`; echo after2; ./pargs "$(W=1)"; echo after3', 'files': {'pargs': PARGS}, 'expect_stdout_contains': '[xy]\nafter\n', 'expect_stdout_last_line': 'after3', 'expect_rc': 0,
+                'area': 'substitution:inner-command-without-a-command'})
     return out
 
 
@@ -271,6 +279,11 @@ def c12(tier, seed):
     out.append({'line': './pargs {a,b}{1..2} f{x,y}-{3..1}.t', 'files': {'pargs': PARGS}, 'expect_stdout': _argv(['a1', 'a2', 'b1', 'b2', 'fx-3.t', 'fx-2.t', 'fx-1.t', 'fy-3.t', 'fy-2.t', 'fy-1.t']), 'area': 'brace:group-and-range-in-one-word'})
     out.append({'script': 'mkdir plain; touch plain/a.txt plain/b.txt\nfor x in first my\\ dir/*.log "q r"/*.txt plain/*.txt last\n    ./pargs "$x"\ndone\n', 'files': {'pargs': PARGS},
                 'expect_stdout': _argv(['first']) + _argv(['my dir/*.log']) + _argv(['q r/*.txt']) + _argv(['plain/a.txt']) + _argv(['plain/b.txt']) + _argv(['last']), 'area': 'glob:no-match-word-with-a-blank-stays-one-word'})
+    # the items of a `for` list: every produced word is one item, whatever stands around it
+    out.append({'script': 'for f in *.txt $(echo end)\n    ./pargs "$f"\ndone\nfor g in x{1,2}y "m n" $(echo 1 2)\n    ./pargs "$g"\ndone\nX=\'one two\'\nfor h in {a,b} "$X" $(echo c)\n    ./pargs "$h"\ndone\n',
+                'files': {'pargs': PARGS, 'a.txt': '', 'b c.txt': '', 'd.txt': ''}, 'expect_stdout': _argv(['a.txt', 'b c.txt', 'd.txt', 'end', 'x1y', 'x2y', 'm n', '1', '2', 'a', 'b', 'one two', 'c']), 'area': 'for-list:produced-words-with-blanks-stay-one-item'})
+    # many groups side by side are not nesting
+    out.append({'line': 'echo first img/{' + ','.join('d%d{a,b}' % i for i in range(120)) + '}.png last | wc -w', 'expect_stdout': '242\n', 'area': 'brace:many-groups-side-by-side', 'timeout': 15})
     # the home directory is the one in effect when the word is expanded, not the first one ever looked up
     out.append({'line': './pargs ~ > /dev/null; export HOME=/tmp/h2; ./pargs ~ ~/y; HOME=/tmp/h3; ./pargs ~/z', 'files': {'pargs': PARGS},
                 'expect_stdout': _argv(['/tmp/h2', '/tmp/h2/y']) + _argv(['/tmp/h3/z']), 'area': 'expand_home:after-HOME-changed'})
@@ -362,6 +375,10 @@ def c13(tier, seed):
     # a builtin that composes a command line of its own from an argument: the argument stays one word of it
     out.append({'line': 'export VIRTUALENV_HOME=$HOME/v; mkdir v; export VIRTUALENV_PYBIN=$HOME/pargs; N="n;touch made"; vox create "$N"; M="m>made2"; vox create "$M"; K="k|./pargs PIPED"; vox create "$K"', 'files': {'pargs': PARGS},
                 'expect_only_files': ['pargs', 'v'], 'expect_stdout_contains': '/v/k|./pargs PIPED]\n', 'expect_stdout_prefix': '[-m]\n[venv]\n', 'area': 'data:builtin-that-composes-a-line:vox-create'})
+    # an executable text file the kernel refuses (no #! line): whatever is done about it, the expanded arguments stay arguments
+    out.append({'line': "V='x;./mk'; ./prog $V last; ./prog $(echo 'y;./mk') z; W='q #c'; ./prog \"$W\" r; echo done", 'files': {'prog': 'echo prog-arg=[$1][$2]\n', 'mk': '#!/bin/sh\ntouch MARKER\n'},
+                'expect_only_files': ['mk', 'prog'], 'expect_stdout_last_line': 'done', 'area': 'data:file-the-kernel-refuses-to-execute'})
+    out.append({'script': "X='one two'\nfor h in {a,b} \"$X\" $(echo c)\n    ./pargs \"$h\"\ndone\n", 'files': {'pargs': PARGS}, 'expect_stdout': _argv(['a', 'b', 'one two', 'c']), 'area': 'data:for-list:double-quoted-value-stays-one-item'})
     # ... also when the pattern matches exactly ONE name
     for n in ('a>b.txt', 'p|q.txt', 'in<x.txt', 'r&.txt', 'a b.txt'):
         out.append({'line': './pargs L *.txt R', 'files': {'pargs': PARGS, n: ''}, 'expect_stdout': _argv(['L', n, 'R']), 'expect_only_files': ['pargs', n], 'area': 'data:glob:single-match'})
@@ -479,6 +496,10 @@ def c03(tier, seed):
     # a quoted or escaped `&` as the last word is an argument: the pipeline is waited for and its status counts
     for line, exp, rc in (('./st a 3 "&" && ./st RHS 0; ./st "st=$?" 0', 'a\nst=3\n', 0), ("./st a 0 '&' || ./st RHS 0; ./st b 4 \\&", 'a\nb\n', 4), ('V="&"; sh -c "sleep 0.3; echo first; exit 5" $V; echo "second $?"', 'first\nsecond 5\n', 0)):
         out.append({'line': line, 'files': {'st': ST}, 'expect_stdout': exp, 'expect_rc': rc, 'area': 'list:quoted-ampersand-as-the-last-word', 'timeout': 10})
+    # a pipeline with a stage that could not be started has failed: `||` runs, `&&` does not
+    out.append({'line': 'ulimit -n 5; true | cat <<< hi || echo FALLBACK; ulimit -n 5; true | cat <<< hi && echo AND; echo end', 'expect_stdout': 'FALLBACK\nend\n', 'area': 'list:a-pipeline-with-a-stage-that-could-not-be-started-has-failed', 'timeout': 10})
+    # a command that does not read its (large) here-string does not end the list
+    out.append({'line': 'B=$(./big); true <<< $B; echo AFTER; true <<< $B && echo YES; sh -c "exit 7"', 'files': {'big': '#!/bin/sh\nhead -c 200000 /dev/zero | tr "\\0" a\n'}, 'expect_stdout': 'AFTER\nYES\n', 'expect_rc': 7, 'area': 'list:goes-on-after-an-unread-here-string', 'timeout': 15})
     # a list operator behind text that is not ASCII is an operator all the same
     for line, exp, rc in (('echo \u4e2d\u6587 && echo second', '\u4e2d\u6587\nsecond\n', 0), ('true \u4e2d\u6587\u4e2d || echo OR; echo "st=$?"', 'st=0\n', 0), ('false caf\u00e9-cr\u00e8me || echo rescued', 'rescued\n', 0),
                           ('true \u00e9\u00e9\u00e9 && sh -c "exit 9"', '', 9), ('echo \u00e9 | cat', '\u00e9\n', 0), ('echo \u00e9\u00e9 ; echo b', '\u00e9\u00e9\nb\n', 0)):
@@ -547,6 +568,11 @@ def c04(tier, seed):
         {'line': 'echo old > log; ./both >> log 2>> log; cat log; ./both 2>>log2 >>log2; cat log2', 'files': dict(F, both='#!/bin/sh\necho out1\necho err1 >&2\necho out2\n'),
          'expect_stdout': 'old\nout1\nerr1\nout2\nout1\nerr1\nout2\n', 'area': 'redirect:append:two-descriptors-one-file'},
         {'line': 'echo piped | cat <<< here; echo a | cat <<< b | cat', 'files': F, 'expect_stdout': 'here\nb\n', 'area': 'redirect:here-string:on-a-later-stage'},
+        # a `<` target that exists but cannot be opened (a unix socket) fails a builtin without running it, like an external program
+        {'line': 'mkdir sub; python3 -c "import socket; s=socket.socket(socket.AF_UNIX); s.bind(\'sock\')"; cd sub < sock; echo "st=$?"; pwd | xargs basename | grep -c sub; export Q=set < sock && echo ran; echo "[$Q]"; cat < sock; echo "st2=$?"', 'files': F,
+         'expect_stdout': 'st=1\n0\n[]\nst2=1\n', 'area': 'redirect:input:target-that-exists-but-cannot-be-opened', 'timeout': 10},
+        # a `<` from a FIFO delivers what the writer sends, however late it comes
+        {'script': 'mkfifo f\nsh -c "sleep 0.4; echo data > f" &\ncat < f\necho end\n', 'files': F, 'expect_stdout': 'data\nend\n', 'area': 'redirect:input:fifo', 'timeout': 10},
         {'line': 'alias nosuch-zz 2>&1; echo after-out; sh -c "echo child-out"', 'files': F, 'expect_stdout_contains': 'after-out\nchild-out\n', 'area': 'redirect:builtin:dup-leaves-the-shell-descriptors-alone'},
         {'line': 'alias nosuch-zz 1>&2; sh -c "echo child-err >&2" 2> e.txt; cat e.txt; alias nosuch-yy 2> e2.txt; cat e2.txt | wc -l', 'files': F, 'expect_stdout': 'child-err\n1\n', 'area': 'redirect:builtin:dup-leaves-the-shell-descriptors-alone'},
         {'script': 'alias nosuch-zz 2>&1\necho after-out\nalias nosuch-yy 1>&2\n./oe 2>&1\n', 'files': F, 'expect_stdout_contains': 'after-out\n', 'expect_stdout_last_line': 'E', 'area': 'redirect:builtin:dup-leaves-the-shell-descriptors-alone'},
@@ -640,6 +666,9 @@ def c09(tier, seed):
         {'line': 'export A=1; A=2 printenv A; printenv A; A=3 ./envp; ./pargs "$A"', 'files': F, 'expect_stdout': '2\n1\n[3]\n[1]\n', 'area': 'vars:prefix-assignment:exported-name'},
         {'line': 'export A=7; ./envp; ./pargs "$A"', 'files': F, 'expect_stdout': '[7]\n[7]\n', 'area': 'vars:export'},
         {'line': 'export A=7; unset A; ./envp; ./pargs "[$A]"', 'files': F, 'expect_stdout': '[]\n[[]]\n', 'area': 'vars:unset'},
+        {'line': 'A=1 A=2; ./pargs "$A"; B=1 B=2 printenv B; export E=5; E=1 E=6 printenv E; C=x D=y C=z; ./pargs "$C$D"', 'files': F, 'expect_stdout': '[2]\n2\n6\n[zy]\n', 'area': 'vars:a-name-assigned-twice-on-one-line'},
+        {'line': 'mkdir -p T/a/sub T/other; cd T/a; mv ../a ../b; cd sub; echo "st=$?"; pwd | xargs basename; sh -c "pwd | xargs basename"; echo x > rel.txt; ls ../../b/sub; cd ../../other; cd -; pwd | xargs basename', 'files': F,
+         'expect_stdout': 'st=0\nsub\nsub\nrel.txt\nsub\n', 'area': 'cd:the-directory-was-renamed-under-the-shell'},
         {'line': "V=$(./two); ./pargs \"$V\"; export W=1; W=$(./two); sh -c 'echo \"$W\"'; X=$(./two) sh -c 'echo \"$X\"'", 'files': dict(F, **{'two': '#!/bin/sh\nprintf "a\\nb\\n"\n'}), 'expect_stdout': '[a\nb]\na\nb\na\nb\n', 'area': 'vars:multi-line-value'},
         {'line': 'read a b; read c; export X=0; read X; ./pargs "$a" "$b" "$c"; sh -c \'echo "X=$X"\'', 'stdin': 'one two three\nfour\nfive\nsix\n', 'files': F, 'expect_stdout': '[one]\n[two three]\n[four]\nX=five\n', 'area': 'read:several-reads-from-one-input'},
         {'line': 'mkdir A B; touch B/file; cd A; cd ../B; cd file; echo rc=$?; cd -; basename $PWD; pwd | xargs basename', 'files': F, 'expect_stdout': 'rc=1\nA\nA\n',
@@ -775,6 +804,12 @@ def c15(tier, seed):
          'expect_stdout': _argv(['P']) + _argv(['P']) + _argv(['Q']) + _argv(['w']) + _argv(['b']), 'area': 'script:arguments:in-a-for-list'},
         {'script': 'function a-b_c() {\n    echo "$0:$1"\n}\na-b_c x\n', 'files': F, 'expect_stdout': 'a-b_c:x\n', 'area': 'function:name-charset'},
         {'script': 'source lib.sh\necho "st=$?"\n', 'files': dict(F, **{'lib.sh': './st a 3\n'}), 'expect_stdout': 'a\nst=3\n', 'area': 'source:status'},
+        # an argument is inserted as it is, also when it holds `$` followed by digits, a name in braces or a dot
+        {'script': 'echo "one:$1:"\necho "two:$2:"\nfunction show() {\n    echo "func:$0:$1:$2:"\n}\nshow "$1" \'$3.50\'\n', 'args': ['US$5', 'tag-${1}-end'], 'files': F,
+         'expect_stdout': 'one:US$5:\ntwo:tag-${1}-end:\nfunc:show:US$5:$3.50:\n', 'area': 'script:arguments:value-with-dollar-digits'},
+        # `source` with an output redirection on its line still runs the file in the current shell
+        {'script': 'source lib.sh > load.log\necho "var:$V:"\nlf x\nbasename $PWD\n', 'files': dict(F, **{'lib.sh': 'V=from-lib\nfunction lf() {\n    echo "lf got $1"\n}\nmkdir -p sub\ncd sub\n'}),
+         'expect_stdout': 'var:from-lib:\nlf got x\nsub\n', 'area': 'source:persists:with-a-redirection-on-the-line'},
         # many files that are not there, then one that is: it is run in the current shell like the first one would have been
         {'script': ''.join('source nosuch%d.sh\n' % i for i in range(80)) + 'source lib.sh w\necho "st=$? $LIBV"\nlibf\n', 'files': dict(F, **{'lib.sh': 'LIBV=set\nfunction libf() {\n    echo in-libf\n}\n'}),
          'expect_stdout': 'st=0 set\nin-libf\n', 'area': 'source:after-many-failed-sources', 'timeout': 20},
@@ -1000,6 +1035,11 @@ def c14(tier, seed):
          'expect_stdout': 'yes\n[a#b]\n[c #d]\nyes2\n', 'area': 'spelling:hash-inside-a-head-line'},
         # the loop variable is bound to each word also when a variable of that name is exported
         {'script': 'export n=0\nfor n in a b\n    ./st "n=$n" 0\n    sh -c \'echo "child:$n"\'\ndone\n', 'files': F, 'expect_stdout': 'n=a\nchild:a\nn=b\nchild:b\n', 'area': 'for:loop-variable-that-is-exported'},
+        # a script that arrives through a pipe or a FIFO is the same script
+        {'line': 'cat inner.sh | {CICADA} /dev/stdin; mkfifo p; sh -c "cat inner.sh > p" | {CICADA} p', 'files': dict(F, **{'inner.sh': 'for x in 1 2\n    if ./eq $x 2\n        break\n    fi\n    ./st "x=$x" 0\ndone\n./st end 0\n'}),
+         'expect_stdout': 'x=1\nend\nx=1\nend\n', 'area': 'script-source:pipe-or-fifo', 'timeout': 10},
+        # every word of the list gets its round -- an empty quoted word is a word
+        {'script': 'E=\nfor x in first "" third \'\' "$E" last\n    ./st "[$x]" 0\ndone\n', 'files': F, 'expect_stdout': '[first]\n[]\n[third]\n[]\n[]\n[last]\n', 'area': 'for:empty-quoted-words'},
         # (repair 64cdb33) a comment behind break / continue is not part of the keyword; a `#` glued to it makes another word
         {'script': 'for x in 1 2 3\n    if ./eq $x 2\n        continue\t#skip two\n    fi\n    ./st $x 0\ndone\nfor y in 1 2\n    ./st y$y 0\n    break   #   leave\ndone\n./st end 0\n', 'files': F, 'expect_stdout': '1\n3\ny1\nend\n', 'area': 'break-continue:followed-by-a-comment'},
         {'script': 'for x in 1 2 3\n    ./st $x 0\n    break # leave\ndone\n./st end 0\n', 'files': F, 'expect_stdout': '1\nend\n', 'area': 'break-continue:followed-by-a-comment'},
@@ -1052,6 +1092,9 @@ def c02(tier, seed):
         {'line': 'head -c 300000 /dev/zero | head -c 10 | wc -c', 'expect_stdout': '10\n', 'area': 'pipeline:sigpipe', 'timeout': 10},
         {'line': 'yes | head -n 3', 'expect_stdout': 'y\ny\ny\n', 'area': 'pipeline:sigpipe', 'timeout': 10},
         {'line': 'true | cat', 'expect_stdout': '', 'expect_rc': 0, 'area': 'pipeline:empty-payload'},
+        {'line': 'echo \\$HOME|wc -c; ./st x 0 \\|a|./st last 7', 'files': F, 'expect_stdout': '6\nlast\n', 'expect_rc': 7, 'area': 'pipeline:pipe-glued-behind-a-word-that-starts-with-an-escape'},
+        # a middle stage that cannot be started (no descriptor for its here-string): the stages behind it are started all the same and see end-of-file
+        {'line': "ulimit -n 7; printf 'a\\n' | cat <<< x | wc -l", 'expect_stdout': '0\n', 'expect_rc': 1, 'area': 'pipeline:a-stage-that-cannot-be-started:the-later-stages-run', 'timeout': 10},
         {'line': 'B=$(./big); true <<< $B | cat; echo "st=$?"; sh -c : <<< $B | wc -c; echo done', 'files': {'big': '#!/bin/sh\nhead -c 200000 /dev/zero | tr "\\0" a\n'}, 'expect_stdout': 'st=0\n0\ndone\n', 'area': 'pipeline:here-string-larger-than-a-pipe-that-is-not-read', 'timeout': 15},
         {'line': 'echo caf\u00e9 | wc -c; echo \u00e9 | cat | tr a-z A-Z | cat', 'expect_stdout': '6\n\u00e9\n', 'area': 'pipeline:non-ascii-text-in-front-of-a-pipe', 'timeout': 10},
         {'line': 'seq 3 | ./lg mid > no-such-dir/out.txt | ./lg last; echo "st=$?"; cat log', 'files': {'lg': '#!/bin/sh\necho "start:$1" >> log\ncat > /dev/null\n'},
@@ -1193,7 +1236,7 @@ def c08(tier, seed):
                    'alias nosuch > f4 2> f5; minfd', 'nosuchcmd-xyz; minfd', 'nosuchcmd-xyz | cat; minfd', 'echo a | nosuchcmd-xyz; minfd', 'cat < /nonexistent-xyz; minfd',
                    'echo a > /nonexistent-dir/f; minfd', 'cat <<< hs; minfd', 'echo a | cat <<< hs; minfd', 'X=$(nosuchcmd-xyz); minfd', 'X=`echo a`; minfd',
                    'echo a | cat | cat | cat | cat | cat; minfd', 'sh -c "exit 3"; minfd', 'echo x >> f6; echo y >> f6; minfd', 'alias zz=1; unalias zz; minfd',
-                   'cd /; minfd', 'export A=1; minfd', 'read v <<< x; minfd']
+                   'cd /; minfd', 'export A=1; minfd', 'read v <<< x; minfd', 'mkdir dd; alias < dd; alias < dd; minfd', 'mkdir de; cd . < de; cd . < nosuch; minfd']
     # a here-string larger than a pipe that its command does not read leaves nothing behind, in the shell or in later programs
     out.append({'line': 'B=$(./big); true <<< $B; ls /proc/self/fd | tr "\\n" " "; echo; minfd', 'files': {'big': '#!/bin/sh\nhead -c 200000 /dev/zero | tr "\\0" a\n'}, 'expect_stdout': ' '.join(base_set) + ' \n3\n', 'timeout': 15, 'area': 'fd:here-string-that-is-not-read'})
     # exhaustion while the capture pipes of a substitution are made: nothing stays open, a later substitution works, and a stage that could not be started makes the status non-zero
